@@ -20,9 +20,9 @@ func init() { register("C09", runC09) }
 
 // abstract schema used by the generator
 type c09Ref struct {
-	Kind    string  `json:"kind"` // SCALAR ENUM INPUT_OBJECT UNION OBJECT LIST NON_NULL
-	Name    string  `json:"name,omitempty"`
-	OfType  *c09Ref `json:"ofType,omitempty"`
+	Kind   string  `json:"kind"` // SCALAR ENUM INPUT_OBJECT UNION OBJECT LIST NON_NULL
+	Name   string  `json:"name,omitempty"`
+	OfType *c09Ref `json:"ofType,omitempty"`
 }
 type c09Arg struct {
 	Name string  `json:"name"`
@@ -192,8 +192,85 @@ func c09GenRef(r *Rand, base *c09Schema, input bool) *c09Ref {
 		if r.Chance(0.4) {
 			t = &c09Ref{Kind: "NON_NULL", OfType: t}
 		}
+		if r.Chance(0.3) { // a list of lists, non-null or not at each level
+			t = &c09Ref{Kind: "LIST", OfType: t}
+			if r.Chance(0.4) {
+				t = &c09Ref{Kind: "NON_NULL", OfType: t}
+			}
+		}
 	}
 	return t
+}
+
+// c09Levels takes a reference apart: is it non-null at list depth 0, 1, ... and the named type at the bottom
+func c09Levels(t *c09Ref) (nn []bool, named *c09Ref) {
+	for {
+		n := false
+		if t.Kind == "NON_NULL" {
+			n = true
+			t = t.OfType
+		}
+		nn = append(nn, n)
+		if t.Kind != "LIST" {
+			return nn, t
+		}
+		t = t.OfType
+	}
+}
+
+func c09FromLevels(nn []bool, named *c09Ref) *c09Ref {
+	t := &c09Ref{Kind: named.Kind, Name: named.Name}
+	for d := len(nn) - 1; d >= 0; d-- {
+		if nn[d] {
+			t = &c09Ref{Kind: "NON_NULL", OfType: t}
+		}
+		if d > 0 {
+			t = &c09Ref{Kind: "LIST", OfType: t}
+		}
+	}
+	return t
+}
+
+// toggleDeep flips the non-null modifier at a random list depth
+func toggleDeep(r *Rand, t *c09Ref) *c09Ref {
+	nn, named := c09Levels(t)
+	d := r.Intn(len(nn))
+	nn[d] = !nn[d]
+	return c09FromLevels(nn, named)
+}
+
+// c09NNViolation: for an output, the merged reference is non-null at a depth where the version's is not
+// (references of another shape are not compared)
+func c09OutputTooStrict(merged, version *c09Ref) bool {
+	mn, _ := c09Levels(merged)
+	vn, _ := c09Levels(version)
+	if len(mn) != len(vn) {
+		return false
+	}
+	for d := range mn {
+		if mn[d] && !vn[d] {
+			return true
+		}
+	}
+	return false
+}
+
+// for an input, the version requires a value at a depth where the merged reference does not
+func c09InputTooLax(merged, version *c09Ref) bool {
+	if merged == nil {
+		return c09IsNN(version)
+	}
+	mn, _ := c09Levels(merged)
+	vn, _ := c09Levels(version)
+	if len(mn) != len(vn) {
+		return false
+	}
+	for d := range mn {
+		if vn[d] && !mn[d] {
+			return true
+		}
+	}
+	return false
 }
 
 func c09GenBase(r *Rand) *c09Schema {
@@ -263,7 +340,36 @@ func c09Mutate(r *Rand, base *c09Schema) *c09Schema {
 		}
 		ti := r.Intn(len(s.Types))
 		t := &s.Types[ti]
-		switch r.Intn(12) {
+		switch r.Intn(14) {
+		case 12, 13: // a list-typed output or argument gets another pattern of non-null modifiers over its levels
+			if t.Kind == "OBJECT" && len(t.Fields) > 0 {
+				var outs []*c09Field
+				var args []*c09Arg
+				for i := range t.Fields {
+					if nn, _ := c09Levels(t.Fields[i].Type); len(nn) > 1 {
+						outs = append(outs, &t.Fields[i])
+					}
+					for j := range t.Fields[i].Args {
+						if nn, _ := c09Levels(t.Fields[i].Args[j].Type); len(nn) > 1 {
+							args = append(args, &t.Fields[i].Args[j])
+						}
+					}
+				}
+				reroll := func(ref *c09Ref) *c09Ref {
+					nn, named := c09Levels(ref)
+					for d := range nn {
+						nn[d] = r.Bool()
+					}
+					return c09FromLevels(nn, named)
+				}
+				if len(outs) > 0 && (len(args) == 0 || r.Bool()) {
+					f := outs[r.Intn(len(outs))]
+					f.Type = reroll(f.Type)
+				} else if len(args) > 0 {
+					a := args[r.Intn(len(args))]
+					a.Type = reroll(a.Type)
+				}
+			}
 		case 0: // drop a type
 			if t.Kind != "SCALAR" {
 				s.Types = append(s.Types[:ti], s.Types[ti+1:]...)
@@ -315,14 +421,22 @@ func c09Mutate(r *Rand, base *c09Schema) *c09Schema {
 		case 5: // toggle non-null on an output
 			if t.Kind == "OBJECT" && len(t.Fields) > 0 {
 				f := &t.Fields[r.Intn(len(t.Fields))]
-				f.Type = toggleNN(f.Type)
+				if r.Bool() {
+					f.Type = toggleNN(f.Type)
+				} else {
+					f.Type = toggleDeep(r, f.Type)
+				}
 			}
 		case 6: // toggle non-null on an argument
 			if t.Kind == "OBJECT" && len(t.Fields) > 0 {
 				f := &t.Fields[r.Intn(len(t.Fields))]
 				if len(f.Args) > 0 {
 					a := &f.Args[r.Intn(len(f.Args))]
-					a.Type = toggleNN(a.Type)
+					if r.Bool() {
+						a.Type = toggleNN(a.Type)
+					} else {
+						a.Type = toggleDeep(r, a.Type)
+					}
 				}
 			}
 		case 7: // enum values
@@ -612,8 +726,8 @@ func c09Bounds(rep *Report, cs c09Case, merged *c09Schema) {
 						rep.Fail("impl_ne_spec", nil, cs, map[string]interface{}{"what": "intersection contains a field one version lacks", "type": tn, "field": f.Name})
 						return
 					}
-					if c09IsNN(f.Type) && !c09IsNN(vf.Type) {
-						rep.Fail("impl_ne_spec", nil, cs, map[string]interface{}{"what": "merged output is non-null although one version may return null", "type": tn, "field": f.Name})
+					if c09OutputTooStrict(f.Type, vf.Type) {
+						rep.Fail("impl_ne_spec", nil, cs, map[string]interface{}{"what": "merged output is non-null (at some list depth) although one version may return null there", "type": tn, "field": f.Name, "merged": f.Type, "version": vf.Type})
 						return
 					}
 					ma := map[string]*c09Ref{}
@@ -621,7 +735,7 @@ func c09Bounds(rep *Report, cs c09Case, merged *c09Schema) {
 						ma[a.Name] = a.Type
 					}
 					for _, a := range vf.Args {
-						if c09IsNN(a.Type) && !c09IsNN(ma[a.Name]) {
+						if c09InputTooLax(ma[a.Name], a.Type) {
 							rep.Fail("impl_ne_spec", nil, cs, map[string]interface{}{"what": "an argument one version requires is not required by the merged schema", "type": tn, "field": f.Name, "arg": a.Name})
 							return
 						}
